@@ -470,6 +470,100 @@ def run_ble_state(case, R):
         shutil.rmtree(d, ignore_errors=True)
 
 
+def run_ble_config(case, R):
+    """A running BLE pairing on a file cache that already holds the database, a broadcast key and a state number sees the accessory advertise
+    higher configuration numbers: it fetches the GATT database again (which may have changed) and writes it through. A process restarted at
+    any point restores what the running one held, and what no step of the history replaced - the broadcast key - is still there."""
+    from aiohomekit.controller.ble.controller import BleController
+    import struct
+
+    from bleak.backends.device import BLEDevice
+    from bleak.backends.scanner import AdvertisementData
+
+    from vlib.bleworld import BleWorld, model_db
+    R.nt(any(s_.get("cn") for s_ in case["steps"]))
+    R.cls("ble-config-change", f"steps={len(case['steps'])}")
+    d = workdir()
+    key = bytes(range(7, 39))
+
+    async def main(loop):
+        loc = pathlib.Path(d) / "cache.json"
+        cache = CharacteristicCacheFile(loc)
+        cn, gsn = case.get("cn0", 1), case.get("g0", 5)
+        cache.async_create_or_update_map("AA:BB:CC:DD:EE:FF", cn, model_db(), key.hex() if case.get("key", True) else None, gsn)
+        w = BleWorld(loop, cache=cache)
+        try:
+            p = w.pairing
+            ctl = w.controller
+            dev = BLEDevice("00:11:22:33:44:55", "Sim", None)
+
+            def adv(gsn_, cn_):
+                mfr = bytes([0x06, 0x31, 0x00]) + bytes.fromhex("aabbccddeeff") + struct.pack("<HHBB", 5, gsn_ & 0xFFFF, cn_ & 0xFF, 2) + b"\x01\x02\x03\x04"
+                return AdvertisementData(local_name="Sim", manufacturer_data={76: mfr}, service_data={}, service_uuids=[], tx_power=None, rssi=-60, platform_data=())
+            ctl._device_detected(dev, adv(gsn, cn))
+            await asyncio.sleep(1)
+            for i, step in enumerate(case["steps"]):
+                if step.get("db") == "range":
+                    w.acc.chars[11].update({"min": 0, "max": 50 + i, "step": 5})
+                elif step.get("db") == "link":
+                    w.acc.service_linked["0000FF00-0000-1000-8000-0026BB765291"] = [1]
+                elif step.get("db") == "value":
+                    w.acc.chars[12]["value"] = struct.pack("<H", 1000 + i)
+                # (the 255 -> 1 wrap of the configuration number is not generated: the tree compares with ">" and does not see it as a change;
+                # no listed property speaks about detecting it - DESIGN section 8)
+                cn = cn + step.get("cn", 0)
+                gsn += step.get("gsn", 0)
+                if step.get("cn") and w.client is not None and w.client.is_connected:
+                    w.client.drop()          # a configuration number changes with a firmware update / reconfiguration: the accessory restarts
+                    await vtime.settle(loop, 2000)
+                ctl._device_detected(dev, adv(gsn, cn))
+                await asyncio.sleep(step.get("wait", 30))
+                await vtime.settle(loop, 2000)
+                if p.config_num != cn and step.get("cn"):
+                    return ("config", f"step {i}: the accessory advertises configuration number {cn}; the running pairing holds {p.config_num}")
+                running = (model_view(p.accessories), p.config_num, p.state_num, p.broadcast_key)
+                ctl2 = BleController(char_cache=CharacteristicCacheFile(loc))
+                p2 = ctl2.load_pairing("alias", dict(w.pairing_data))
+                if p2.accessories is None:
+                    return ("restart", f"step {i}: nothing was restored from the cache file")
+                restored = (model_view(p2.accessories), p2.config_num, p2.state_num, p2.broadcast_key)
+                if restored != running:
+                    what = [n for n, a, b in zip(("model", "config_num", "state_num", "broadcast_key"), running, restored) if a != b]
+                    return ("restart", f"step {i}: a restarted process restores other {what} than the running one holds: {running[1:]} -> {restored[1:]}")
+                if case.get("key", True) and restored[3] != key:
+                    return ("key", f"step {i} (configuration number {cn}): the broadcast key the cache held is gone after restart ({restored[3]!r}); nothing in the history replaced it")
+                # (the state number is not compared with the last advertised one: the tree forgets it with the old database until the next
+                # advertisement, in the running process too - the file mirrors the running pairing, which is what the statement asks for)
+            await p.shutdown()
+            return None
+        finally:
+            w.restore()
+    try:
+        bad = vtime.run(main)
+    except Exception as e:  # noqa: BLE001
+        R.fail("C20.cache-roundtrip-raises", f"BLE configuration change {case['steps']}: {type(e).__name__}: {e}", exc=type(e).__name__)
+        return
+    finally:
+        shutil.rmtree(d, ignore_errors=True)
+    if bad:
+        R.fail("C20.cache-roundtrip", f"BLE: {bad[1]}", field={"key": "broadcast_key", "state": "state_num", "config": "config_num"}.get(bad[0], "other"))
+
+
+def enum_ble_config(tier):
+    for db in (None, "range", "link", "value"):
+        yield {"steps": [{"cn": 1, "db": db}]}
+        yield {"steps": [{"cn": 1, "db": db, "gsn": 1}, {"gsn": 1}, {"cn": 1, "db": db}]}
+        yield {"steps": [{"gsn": 2}, {"cn": 2, "db": db}, {"cn": 0}], "cn0": 240, "g0": 65000}
+    yield {"steps": [{"cn": 1}], "key": False}
+
+
+@st.composite
+def ble_config_cases(draw):
+    steps = draw(st.lists(st.fixed_dictionaries({"cn": st.sampled_from([0, 1, 1, 3]), "gsn": st.sampled_from([0, 0, 1, 5]), "db": st.sampled_from([None, "range", "link", "value"]),
+                                                 "wait": st.sampled_from([5, 30, 200])}), min_size=1, max_size=4))
+    return {"steps": steps, "cn0": draw(st.sampled_from([1, 7, 200, 240])), "g0": draw(st.sampled_from([1, 5, 900, 65530])), "key": draw(st.sampled_from([True, True, False]))}
+
+
 def run_ip_config(case, R):
     """A running IP pairing on a file cache learns new configuration numbers from discovery updates (and re-reads the accessory
     database, which may have changed); a restarted process restores what the running one held."""
@@ -748,6 +842,9 @@ SPEC = Property(
         Layer("cache-roundtrip", run_cache, strategy=cache_cases, n={"quick": 800, "thorough": 20000}, min_nontrivial=50),
         Layer("ip-config-number-fixed", run_ip_config, enumerate=enum_ip_config, exhaustive=True, space="5 sequences of discovery updates with configuration numbers (database changing or not), with / without first contact"),
         Layer("ip-config-number", run_ip_config, strategy=ip_config_cases, n={"quick": 150, "thorough": 3000}, min_nontrivial=20),
+        Layer("ble-config-number-fixed", run_ble_config, enumerate=enum_ble_config, exhaustive=True,
+              space="13 sequences of advertisements with rising configuration numbers (database unchanged / new range / new link / new value), restart after every step"),
+        Layer("ble-config-number", run_ble_config, strategy=ble_config_cases, n={"quick": 120, "thorough": 3000}, min_nontrivial=20),
         Layer("ble-state-number-fixed", run_ble_state, enumerate=enum_ble_state, exhaustive=True, space="4 state-number sequences incl. the 65535 -> 1 roll-over, restart after every advertisement"),
         Layer("ble-state-number", run_ble_state, strategy=ble_state_cases, n={"quick": 200, "thorough": 4000}, min_nontrivial=20),
         Layer("cache-corrupt", run_corrupt_cache, strategy=corrupt_cases, n={"quick": 48, "thorough": 800}, min_nontrivial=10),
